@@ -57,6 +57,11 @@ Theorem C18_exception_total : forall xt c m,
 Proof. exact dec_enc_exn_total. Qed.
 Print Assumptions C18_exception_total.
 
+(* the executable domain check the suite evaluates on every generated case is sound for `conf` *)
+Theorem C18_domain_check_sound : forall ct xt v k, confb ct xt v k = true -> conf ct xt v k.
+Proof. exact confb_sound. Qed.
+Print Assumptions C18_domain_check_sound.
+
 (* ---- non-vacuity: concrete conforming values ---- *)
 (* classes: 12 a StopEvent subclass "GenStop" (field 1001), 16 StepFailedEvent-like (fields: 1002 json,
    1003 nested event, 1004 exception), 10 plain Event; exception class 2 is message-faithful *)
@@ -67,14 +72,7 @@ Definition exStop := TE 12 [(1001, TJ (JNum 3))] [(1005, JArr [JNum 1; JNull]); 
 Definition exNested := TE 16 [(1002, TJ (JStr 1007)); (1003, exStop); (1004, TX 2 1008)] [(1009, JNum 1)] JNull.
 
 Example C18_ex_conf_event : conf exCt exXt exNested KEvent /\ conf exCt exXt exStop KEvent.
-Proof.
-  split; cbn; repeat (split || eexists || reflexivity || (intro; discriminate) || (left; reflexivity)
-                      || (intros [H|[H|[H|H]]]; (discriminate H || contradiction))
-                      || (intros [H|[H|H]]; (discriminate H || contradiction))
-                      || (intros [H|H]; (discriminate H || contradiction))
-                      || (intros x [<-|[<-|[<-|[]]]]; simpl; auto)
-                      || (intros x [<-|[]]; simpl; auto) || (intros x [])).
-Qed.
+Proof. split; apply confb_sound; vm_compute; reflexivity. Qed.
 Print Assumptions C18_ex_conf_event.
 
 Example C18_ex_roundtrip_computed :
@@ -90,8 +88,9 @@ Definition exTick :=
                          TObj [(k_type, TJ (JStr k_result)); (k_result, exStop)];
                          TObj [(k_type, TJ (JStr k_result)); (k_result, TJ JNull)]])].
 Example C18_ex_tick_roundtrip_computed :
+  conf exCt exXt exTick shapes /\
   tick_decode exCt exXt shapes (tick_encode exCt true exTick) = Some exTick.
-Proof. vm_compute. reflexivity. Qed.
+Proof. split; [apply confb_sound|]; vm_compute; reflexivity. Qed.
 Print Assumptions C18_ex_tick_roundtrip_computed.
 
 (* ---- the defects ---- *)
